@@ -84,6 +84,10 @@ func init() {
 			{Pkg: "datalog", Func: "VerifC11Limits", Quick: p("depth", 3), Thorough: p("depth", 4), Covers: []string{"returned", "success", "error"}},
 			{Pkg: "datalog", Func: "VerifC11Outcomes", Quick: p(), Thorough: p(), Covers: []string{"returned", "invalid-rule", "expr-error"}},
 			{Pkg: "biscuit", Func: "VerifC11AuthorizerLimits", Quick: p(), Thorough: p(), Covers: []string{"authorized", "refused", "allowed"}},
+			{Pkg: "datalog", Func: "VerifC11General",
+				Quick:    p("facts", 2, "rules", 1, "body", 1, "arity", 1, "vars", 1, "expr", 0, "kinds", 1, "varfacts", 0, "varrules", 0),
+				Thorough: p("facts", 2, "rules", 2, "body", 2, "arity", 1, "vars", 2, "expr", 0, "kinds", 1, "varfacts", 0, "varrules", 0),
+				Covers:   []string{"returned", "success", "error"}},
 		},
 		Assumptions: append([]string{
 			"limit direction of the claim uses a chain program of known depth d <= 2 (quick) / 3 (thorough) with symbolic names/constant: fixpoint has d+1 facts and needs d+1 iterations; maxFacts in [0,1000] and maxIterations in [0,100] fully symbolic",
@@ -103,6 +107,7 @@ func init() {
 		Harness: []string{"c20_entropy.go"},
 		Entries: []EntrySpec{
 			{Pkg: "biscuit", Func: "VerifC20Entropy", Quick: p(), Thorough: p(), Covers: []string{"returned", "failing-source", "good-source", "verified"}},
+			{Pkg: "biscuit", Func: "VerifC20Sequence", Quick: p("draws", 2), Thorough: p("draws", 4), Covers: []string{"ran-dry", "all-drawn"}},
 		},
 		Assumptions: append([]string{
 			"the supplied source delivers k symbolic bytes (k = 0..32, every value) in one read, byte-by-byte or in 7-byte chunks, then returns an error; or never fails",
